@@ -199,6 +199,16 @@ def iter_items_cond(ex, ctx, st, it):
         if nm in ('Copied', 'Cloned'):
             inner, st = iter_items_cond(ex, ctx, st, it[2][0])
             return [(c, ex.load(st, x) if x[0] == 'ref' else x) for c, x in inner], st
+        if nm == 'Filter':
+            # presence conditions are no longer prefix-closed; only consumers that treat items independently
+            # (fold with a per-item ite, any, all, count) may use them
+            inner, st = iter_items_cond(ex, ctx, st, it[2][0])
+            out = []
+            for c, x in inner:
+                rx = ex.new_tmp(st, x)
+                keep, st = call_closure(ex, ctx, st, it[2][1], [rx])
+                out.append((mk_and(c, keep), x))
+            return out, st
     items, st = iter_items(ex, ctx, st, it)
     return [(TRUE, x) for x in items], st
 
@@ -991,6 +1001,47 @@ def apply(ex, ctx, st, f, args, dest_ty, term):
             r, st = call_closure(ex, ctx, st, args[1], [items[i]])
             res = mk_ite(r, option_some(C(i, 'usize')), res)
         return res, st
+
+    # ---- mem ---------------------------------------------------------------------------------
+    if path in ('core::mem::take', 'core::mem::replace', 'core::mem::swap'):
+        if name == 'take':
+            old_ = ex.load(st, args[0])
+            if dest_ty is None:
+                raise Uncertified("mem::take without destination type")
+            ex.store(st, args[0], default_value(ex, dest_ty))
+            return old_, st
+        if name == 'replace':
+            old_ = ex.load(st, args[0])
+            ex.store(st, args[0], args[1])
+            return old_, st
+        a_ = ex.load(st, args[0])
+        b_ = ex.load(st, args[1])
+        ex.store(st, args[0], b_)
+        ex.store(st, args[1], a_)
+        return UNIT, st
+    if dpath == 'core::iter::Iterator::chain':
+        a_, st = iter_items(ex, ctx, st, args[0])
+        b_, st = iter_items(ex, ctx, st, args[1])
+        return m_iter('ArrayIter', agg(('array',), a_ + b_), C(0, 'usize')), st
+    if dpath == 'core::iter::Iterator::filter':
+        return m_iter('Filter', args[0], args[1]), st
+    if dpath == 'core::iter::Iterator::collect' or dpath == 'core::iter::Iterator::last' or dpath == 'core::iter::Iterator::nth':
+        raise Uncertified("iterator consumer %s" % name)
+    if path in ('core::slice::<impl [T]>::windows', 'core::slice::<impl [T]>::chunks'):
+        arr0 = ex.load(st, args[0])
+        k_ = args[1]
+        if arr0[0] != 'agg' or k_[0] != 'c' or args[0][0] != 'ref' or args[0][1][0] == 'val':
+            raise Uncertified("windows over %s" % arr0[0])
+        n_ = len(arr0[2])
+        off = args[0][2][0] if args[0][2] is not None else 0
+        wins = []
+        step = 1 if name == 'windows' else k_[1]
+        i_ = 0
+        while i_ + (k_[1] if name == 'windows' else 1) <= n_:
+            ln = min(k_[1], n_ - i_)
+            wins.append(mk('ref', args[0][1], (off + i_, ln)))
+            i_ += step
+        return m_iter('ArrayIter', agg(('array',), wins), C(0, 'usize')), st
 
     # ---- strings ---------------------------------------------------------------------------
     if path == 'core::str::<impl str>::chars':
